@@ -57,6 +57,8 @@ def gen_desc(rnd):
     seps = [rnd.choice([' ', ' ', ' ', '  ', '\t', '   ', ' ', ' ', '\u00a0']) for _ in words]
     body = ''.join(w + s for w, s in zip(words, seps)).strip()
     d = rnd.choice(PREFIX) + body + rnd.choice(SUFFIX)
+    if rnd.random() < .06:
+        return rnd.choice(['SQ *', 'TST* 00012345', 'PP*', 'GOOGLE *', 'SQ *  ', 'TST*'])      # nothing but a payment processor's prefix (and a number)
     if rnd.random() < .04:
         # a wire / SEPA reference: one very long unbroken token (several hundred characters) among the first words
         ref = 'WIRE/OUT-' + ';'.join('%s=%s' % (k, 'X7Q9' * rnd.randint(6, 14)) for k in ('BNF', 'OBI00', 'REF', 'IBAN', 'BIC'))
